@@ -515,7 +515,7 @@ func check(c Case, st *rig.Stats) error {
 }
 
 var stats = rig.NewStats("C13",
-	"(version lists include multi-segment versions sharing their first segment; since round 5: the group optionally has WithStatusRecovery(590), a third of the routers a WithStatusRecovery of their own, and one request in six makes the answering handler panic: through the group the outcome - escaped or not, status - must be the one the accepting router alone gives, and the group's own not-found path is contained iff the group has the option) rapid draws a history of 1-8 Group steps (New / Add of a router with a matcher built from nil, Hosts, path-version, header-version, And, Or with nesting depth <= 2 and a table drawn from six routes; Remove(name); Use; duplicate names) and 1-8 requests (paths with none / one / repeated version segments, hosts literal / wildcard / with port / unknown, Accept with matching / other / no version). After every step every request is evaluated by a pure reference matcher evaluator (And threads the request through its members and is the identity when any member rejects; Or takes the first accepting member on the original request) to pick the first accepting router; the group's answer must equal that router alone serving the produced path, plus the matcher's parameters, with URL.Path seen by CallFunc equal to the produced path; when nobody accepts the group's not-found handler runs with the Group.Use middlewares, no parameters and the original path. Names stay unique; removed routers never answer. Non-trivial: >=2 routers and at least one composite matcher rejected before the request was accepted or fell through; distinct by hash of the case",
+	"(version lists include multi-segment versions sharing their first segment; since round 5: the group optionally has WithStatusRecovery(590), a third of the routers a WithStatusRecovery of their own, and one request in six makes the answering handler panic: through the group the outcome - escaped or not, status - must be the one the accepting router alone gives, and the group's own not-found path is contained iff the group has the option) rapid draws a history of 1-8 Group steps (New / Add of a router with a matcher built from nil, Hosts, path-version, header-version, And, Or with nesting depth <= 2 and a table drawn from six routes; Remove(name); Use; duplicate names) and 1-8 requests (paths with none / one / repeated version segments, hosts literal / wildcard / with port / unknown, Accept with matching / other / no version). After every step every request is evaluated by a pure reference matcher evaluator (And threads the request through its members and is the identity when any member rejects; Or takes the first accepting member on the original request) to pick the first accepting router; the group's answer must equal that router alone serving the produced path, plus the matcher's parameters, with URL.Path seen by CallFunc equal to the produced path; when nobody accepts the group's not-found handler runs with the Group.Use middlewares, no parameters and the original path. Names stay unique; removed routers never answer. Non-trivial: >=2 routers and at least one composite matcher rejected before the request was accepted or fell through; distinct by hash of the case. Later additions to the generated domain: And / Or are also built with AndMatcherFunc / OrMatcherFunc; Routers(), Router(name) and Group.Routes() are checked against the model after every step; one case in ten is a group of up to fourteen routers with 10-30 steps. Hosts include non-port text behind the colon.",
 	"matcher parameter names are disjoint from route parameter names",
 	"Hosts members use the C02 reference resolver on the lower-cased host without a valid port")
 
